@@ -624,7 +624,7 @@ theorem parse_sound {c : DecodeCfg} {pos : Nat} {bs : Bytes} {i : Instr} {rest :
             · cases h
 
 /-- every operand C05's Spec encoder `Frame.encodeOperand` produces is an `Operand` here (the
-relation additionally covers `sleb128` and padded LEB128) -/
+relation additionally covers padded LEB128 operands) -/
 theorem operand_of_encodeOperand {e : Endian} {enc asz x : Nat} {bytes : Bytes}
     (h : Frame.encodeOperand e enc asz x = some bytes) : Operand e asz enc x bytes := by
   unfold Frame.encodeOperand CfiEntry.peFormat at h
@@ -694,6 +694,22 @@ theorem operand_of_encodeOperand {e : Endian} {enc asz x : Nat} {bytes : Bytes}
                     rw [hse] at this
                     exact this
                   · cases h
-                · cases h
+                · split at h
+                  · rename_i hf
+                    split at h
+                    · rename_i hx
+                      cases h
+                      -- sleb128: the operand pattern `x` is encoded as the signed number it denotes
+                      have hlo : -(2 : Int) ^ 63 ≤ Leb.toI64 x := by unfold Leb.toI64; split <;> omega
+                      have hhi : Leb.toI64 x < 2 ^ 63 := by unfold Leb.toI64; split <;> omega
+                      obtain ⟨h1, h2, h3, _⟩ := Leb.encodeS_spec (Leb.toI64 x) hlo hhi
+                      have := Operand.sleb128 (e := e) (asz := asz) (enc := enc) (Leb.toI64 x) _ hf
+                        ⟨h1, h3, h2, hlo, hhi⟩
+                      have hp : pattern64 (Leb.toI64 x) = x := by
+                        unfold pattern64 Leb.toI64; split <;> omega
+                      rw [hp] at this
+                      exact this
+                    · cases h
+                  · cases h
 
 end Gimli.Spec.Cfi
